@@ -84,6 +84,13 @@ def Z1():
     return C("Z1", workers=2, second_pool=True, zipped=True, calls=[("imap", "list", 2, 1), ("imap", "list", 2, 1)])
 
 
+def J5():
+    # P5 on a pool with a join_timeout, the timer of a timed join expiring early (environment deviation): a retired worker
+    # that has not exited yet when the replace thread stops waiting for it must still get a successor
+    return C("J5", kind="factory", quota=1, workers=1, join_timeout=1,
+             calls=[("imap", "list", 2, 1), ("imap", "list", 2, 1)])
+
+
 def V1():
     # items 0 / None / int: a pool must treat a falsy item and a None item (its own stop token) like any other;
     # chunk size 2 puts a None at the end of a chunk and at the end of the data, the second call has one-item chunks
